@@ -482,6 +482,34 @@ class EffectError(AnalysisError):
     pass
 
 
+def _sems_with_attr(prog, classes, attr, where):
+    """Kinds of the check classes whose instances have the attribute (a
+    method anywhere in the class, or an attribute set by __init__)."""
+    sems = []
+    for cc in classes.values():
+        ci = prog.classes.get(cc.qual)
+        if ci is None:
+            continue
+        has = prog.find_method(cc.qual, attr) is not None
+        init = prog.find_method(cc.qual, '__init__')
+        if not has and init is not None:
+            has = any(isinstance(n, ast.Attribute) and isinstance(
+                n.ctx, ast.Store) and n.attr == attr and isinstance(
+                    n.value, ast.Name) and n.value.id == 'self'
+                for n in ast.walk(init.node))
+        if not has:
+            continue
+        if cc.sem not in ('and', 'or', 'not'):
+            raise EffectError('hasattr(%r) also holds for %s operands in %s'
+                              % (attr, cc.qual, where))
+        if cc.sem not in sems:
+            sems.append(cc.sem)
+    if not sems:
+        raise EffectError('hasattr(%r) holds for no check class in %s'
+                          % (attr, where))
+    return sorted(sems)
+
+
 def effect_of(prog, classes, finfo):
     """Effect term of a reducer method: list of (kind, term)."""
     params = finfo.params[1:]
@@ -623,7 +651,16 @@ def effect_of(prog, classes, finfo):
                                   where)
             out.append((e.elts[0].value, t))
         # path condition -> isinstance tests
-        conds = []
+        alts = [[]]
+
+        def raw_term(subj):
+            # subject evaluated *before* later mutations: use raw term
+            saved = dict(mut)
+            mut.clear()
+            try:
+                return term(subj)
+            finally:
+                mut.update(saved)
         for c in p.conds:
             e = c.expr
             if c.kind != 'test':
@@ -634,19 +671,40 @@ def effect_of(prog, classes, finfo):
                 if cc is None or cc.sem not in ('and', 'or', 'not'):
                     raise EffectError('isinstance against non-check class '
                                       'in %s' % where)
-                # subject evaluated *before* later mutations: use raw term
-                subj = e.args[0]
-                saved = dict(mut)
-                mut.clear()
-                try:
-                    st = term(subj)
-                finally:
-                    mut.update(saved)
-                conds.append((st, cc.sem, c.pol))
+                st = raw_term(e.args[0])
+                for a in alts:
+                    a.append((st, cc.sem, c.pol))
+            elif isinstance(e, ast.Call) and isinstance(e.func, ast.Name) \
+                    and e.func.id == 'hasattr' and len(e.args) == 2 and \
+                    isinstance(_const(e.args[1])[1], str):
+                # duck typing: true for every check class with the attribute
+                sems = _sems_with_attr(prog, classes, _const(e.args[1])[1],
+                                       where)
+                st = raw_term(e.args[0])
+                if not c.pol:
+                    for a in alts:
+                        a.extend((st, s, False) for s in sems)
+                else:
+                    alts = [a + [(st, t, False) for t in sems[:i]] +
+                            [(st, s, True)]
+                            for a in alts for i, s in enumerate(sems)]
             else:
                 raise EffectError('unrecognised condition %s in reducer %s'
                                   % (U(e), where))
-        results.append((conds, out))
+        for a in alts:
+            # drop contradictory alternatives, and repeated tests
+            seen = {}
+            ok = True
+            for st, sem, pol in a:
+                if seen.setdefault((st, sem), pol) != pol:
+                    ok = False
+                # an operand is of one kind only
+                if pol and any(k[0] == st and k[1] != sem and v
+                               for k, v in seen.items()):
+                    ok = False
+            if ok:
+                results.append(([(k[0], k[1], v) for k, v in seen.items()],
+                                out))
     # fold the paths into one term per result slot
     if len(results) == 1 and not results[0][0]:
         return results[0][1]
